@@ -42,25 +42,26 @@ func fail(format string, args ...any) {
 
 // Act is one activation of a function body (top-level or inlined).
 type Act struct {
-	u            *Unit
-	fn           *ssa.Function
-	fc           *FuncContract
-	vals         map[ssa.Value]Val
-	depth        int
-	top          *Act
-	entry        *State // state at entry of the top-level function (old)
-	params       []Val
-	free         []Val
-	spec         bool // pure evaluation: no obligations
-	pureFns      map[ssa.Value]bool
-	stack        []*ssa.Function
-	loops        []*loopInfo
-	dom          map[*ssa.BasicBlock]map[*ssa.BasicBlock]bool
-	nilOK        []nilSeen
-	measure0     Term // function-level decreases measure at entry
-	seenObl      map[string]bool
-	staticTraced map[string]bool // callback names that are statically called functions (set on the top activation)
-	qn           *int
+	u                     *Unit
+	fn                    *ssa.Function
+	fc                    *FuncContract
+	vals                  map[ssa.Value]Val
+	depth                 int
+	top                   *Act
+	entry                 *State // state at entry of the top-level function (old)
+	params                []Val
+	free                  []Val
+	spec                  bool // pure evaluation: no obligations
+	pureFns               map[ssa.Value]bool
+	stack                 []*ssa.Function
+	loops                 []*loopInfo
+	dom                   map[*ssa.BasicBlock]map[*ssa.BasicBlock]bool
+	nilOK                 []nilSeen
+	measure0              Term // function-level decreases measure at entry
+	seenObl               map[string]bool
+	lastPerm, lastPermInv Term            // permutation witness of the most recent sort call (spec builtins perm(i), perminv(j))
+	staticTraced          map[string]bool // callback names that are statically called functions (set on the top activation)
+	qn                    *int
 }
 
 type nilSeen struct {
